@@ -12,6 +12,8 @@ import (
 	"os"
 	"strconv"
 	"strings"
+	"sync"
+	"sync/atomic"
 	"testing"
 	"testing/synctest"
 	"time"
@@ -505,6 +507,33 @@ func TestRetry(t *testing.T) {
 			w.put(map[string]any{"kind": "breaker", "thr": b.Thr, "gaps": b.Gaps, "outs": b.Outs, "invoked": invoked, "res": res})
 		}
 	})
+
+	// concurrent callers of one breaker (real goroutines, real time): n calls whose operation fails, all issued while the
+	// first one is still inside the operation. Whatever the interleaving, the calls take effect in some order, and in every
+	// order exactly min(n, threshold) of them reach the operation (Retry.tla: BreakerRun over n failing calls).
+	for _, thr := range []int{1, 2, 3} {
+		for _, n := range []int{2, 4, 6} {
+			cb := leader.NewCircuitBreaker(thr, time.Hour)
+			var invoked atomic.Int32
+			release := make(chan struct{})
+			var wg sync.WaitGroup
+			for g := 0; g < n; g++ {
+				wg.Add(1)
+				go func() {
+					defer wg.Done()
+					_ = cb.Call(func() error {
+						invoked.Add(1)
+						<-release
+						return errors.New("operation failed")
+					})
+				}()
+			}
+			time.Sleep(30 * time.Millisecond)
+			close(release)
+			wg.Wait()
+			w.put(map[string]any{"kind": "breaker_conc", "thr": thr, "n": n, "invoked": int(invoked.Load())})
+		}
+	}
 
 	// CalculateBackoff samples
 	rng := rand.New(rand.NewSource(seed))
